@@ -79,9 +79,23 @@ func runC17(c *runCtx) {
 	b0.Commit()
 	_ = dir
 
+	// the request's user is not the identity configured in the repository
+	web, err := rc.Identities().New("request user", "q@example.com")
+	if err != nil {
+		panic(err)
+	}
 	gh := graphql.NewHandler(mrc, nil)
 	anon := http.Handler(gh)
-	authed := auth.Middleware(iden.Id())(gh)
+	authed := auth.Middleware(web.Id())(gh)
+	opCount := func() map[entity.Id]int {
+		out := map[entity.Id]int{}
+		for _, id := range rc.Bugs().AllIds() {
+			if x, err := rc.Bugs().Resolve(id); err == nil {
+				out[id] = len(x.Snapshot().Operations)
+			}
+		}
+		return out
+	}
 
 	// discover the mutation fields and their input types by introspection
 	intro, raw := gqlPost(anon, `{ __schema { mutationType { fields { name args { name type { kind name ofType { kind name } } } } } } }`)
@@ -188,6 +202,7 @@ func runC17(c *runCtx) {
 					}
 					q := fmt.Sprintf("mutation { %s(input: {%s}) { clientMutationId } }", f.Name, strings.Join(parts, ", "))
 					before := snapshot()
+					opsBefore := opCount()
 					h := anon
 					if user {
 						h = authed
@@ -231,23 +246,20 @@ func runC17(c *runCtx) {
 					} else if valid && hasErr && f.Name != "openBug" && f.Name != "addCommentAndReopen" {
 						c.violation(c.nCases, "C17/refused-with-user", fmt.Sprintf("mutation %s failed with a user attached: %s", f.Name, trunc(rawRes, 300)), nil)
 					} else if valid && !hasErr {
-						// the change is recorded, authored by that user
-						bc, _ := rc.Bugs().Resolve(b0.Id())
-						ops := bc.Snapshot().Operations
-						if f.Name == "newBug" {
-							ids := rc.Bugs().AllIds()
-							var newest *cache.BugCache
-							for _, id := range ids {
-								x, _ := rc.Bugs().Resolve(id)
-								if newest == nil || x.CreateLamportTime() > newest.CreateLamportTime() {
-									newest = x
+						// the change is recorded: every new operation is authored by the request's user
+						newOps := 0
+						for id, n := range opCount() {
+							x, _ := rc.Bugs().Resolve(id)
+							ops := x.Snapshot().Operations
+							for _, o := range ops[opsBefore[id]:n] {
+								newOps++
+								if o.Author().Id() != web.Id() {
+									c.violation(c.nCases, "C17/wrong-author", fmt.Sprintf("mutation %s recorded a %T not authored by the request's user", f.Name, o), nil)
 								}
 							}
-							ops = newest.Snapshot().Operations
 						}
-						last := ops[len(ops)-1]
-						if last.Author().Id() != iden.Id() {
-							c.violation(c.nCases, "C17/wrong-author", fmt.Sprintf("mutation %s recorded an operation not authored by the request's user", f.Name), nil)
+						if newOps == 0 {
+							c.violation(c.nCases, "C17/no-change-with-user", fmt.Sprintf("mutation %s reported success but recorded no operation", f.Name), nil)
 						}
 						if !changed {
 							c.violation(c.nCases, "C17/no-change-with-user", fmt.Sprintf("mutation %s reported success but nothing changed", f.Name), nil)
@@ -265,7 +277,7 @@ func runC17(c *runCtx) {
 			router := mux.NewRouter()
 			up := httpapi.NewGitUploadFileHandler(mrc)
 			if user {
-				router.Path("/gitfileupload").Methods("POST").Handler(auth.Middleware(iden.Id())(up))
+				router.Path("/gitfileupload").Methods("POST").Handler(auth.Middleware(web.Id())(up))
 			} else {
 				router.Path("/gitfileupload").Methods("POST").Handler(up)
 			}
